@@ -214,15 +214,15 @@ theorem literal_roundtrip_string (s rest : List Char) : lexStr (quote s ++ rest)
 /-- escaping that forgets the backslash is wrong: `a\` would swallow the closing quote -/
 example : lexStr ('\'' :: (escCharsNoBackslash ['a', '\\'] ++ ['\''])) = none := by rfl
 
-/-! ### Prepare BEFORE hooks/C10-fix7 (`prepOld`): kinds hoisted onto the MATCH pattern are part of the meaning
+/-! ### Prepare as it is (`prep` = the ExpressionListRewriter of /repo): kinds hoisted onto the MATCH pattern are part of the meaning
 
-`prepOld false` is the neo4j ExpressionListRewriter without the string-negation null guard (a deliberate change of meaning,
+`prep false` is the neo4j ExpressionListRewriter without the string-negation null guard (a deliberate change of meaning,
 see `string_negation_guard_eval`); `meaning v ks w` = "the relationship has one of the kinds `ks` and `w` is true". -/
 
 /-- Hoisting a relationship kind matcher into the pattern preserves the three-valued meaning when it is the only one
 hoisted, is any-of, and is reached from the WHERE root through conjunctions and parentheses only (`hoistOK`, decidable) … -/
-theorem prepare_preserves_eval_old (v : Val) (e : Expr) (h : List (List String)) (w : Option Expr)
-    (hv : valid e = true) (hs : hoistOK e = true) (hp : prepOld false false true e = some (h, w)) :
+theorem prepare_preserves_eval (v : Val) (e : Expr) (h : List (List String)) (w : Option Expr)
+    (hv : valid e = true) (hs : hoistOK e = true) (hp : prep false false true e = some (h, w)) :
     meaning v (flattenKinds h) w = eval v e := by
   have hflags : ∀ b ∈ sites false true e, b = true := by
     intro b hb
@@ -234,7 +234,7 @@ theorem prepare_preserves_eval_old (v : Val) (e : Expr) (h : List (List String))
       simp only [hl] at hs
       rw [hb]; exact hs
     | _ :: _ :: _, hs, _ => simp [hl] at hs
-  have g := prepOld_good v e false true true h w hv hflags hp
+  have g := prep_good v e false true true h w hv hflags hp
   have hlen := g.len
   simp only [hoistOK] at hs
   match hl : sites false true e, h, hlen, g.ev, g.ne with
@@ -252,13 +252,13 @@ def rx : Expr := .cmp (.prop "r" "x") .eq (.param "")
 
 /-- … and only then: out of an OR, an XOR, a negation (what regression A does), next to a second hoisted matcher, or
 for an all-of matcher, a valuation separates the prepared query from the criteria. -/
-theorem hoist_from_or_changes_meaning_old :
-    prepOld false false true (qOr [qKind "r" ["A"], rx]) = some ([["A"]], some (.paren rx)) ∧
+theorem hoist_from_or_changes_meaning :
+    prep false false true (qOr [qKind "r" ["A"], rx]) = some ([["A"]], some (.paren rx)) ∧
     ∃ v : Val, meaning v ["A"] (some (.paren rx)) = some false ∧ eval v (qOr [qKind "r" ["A"], rx]) = some true :=
   ⟨rfl, ⟨fun _ _ _ => some true, fun _ _ => none, fun _ _ => some false⟩, rfl, rfl⟩
 
-theorem hoist_from_xor_changes_meaning_old :
-    prepOld false false true (qXor [qKind "r" ["A"], rx]) = some ([["A"]], some (.join .xor [rx])) ∧
+theorem hoist_from_xor_changes_meaning :
+    prep false false true (qXor [qKind "r" ["A"], rx]) = some ([["A"]], some (.join .xor [rx])) ∧
     ∃ v : Val, meaning v ["A"] (some (.join .xor [rx])) = some false ∧ eval v (qXor [qKind "r" ["A"], rx]) = some true :=
   ⟨rfl, ⟨fun _ _ _ => some true, fun _ _ => none, fun _ _ => some false⟩, rfl, rfl⟩
 
@@ -266,21 +266,21 @@ theorem hoist_from_xor_changes_meaning_old :
 def wNegKind : Expr := qNot (qAnd [qNot rx, qKind "r" ["A", "B"]])
 
 /-- the rewriter leaves a matcher below a negation alone … -/
-theorem prepare_keeps_negated_kind_matcher_old : prepareOld wNegKind = some ([], some wNegKind) := by rfl
+theorem prepare_keeps_negated_kind_matcher : prepare wNegKind = some ([], some wNegKind) := by rfl
 
 /-- … because hoisting it (`match ()-[r:A|B]->() where not (not (r.x = $p0))`) asks a different question -/
 theorem hoist_from_negation_changes_meaning :
     ∃ v : Val, meaning v ["A", "B"] (some (qNot (qNot rx))) = some false ∧ eval v wNegKind = some true :=
   ⟨⟨fun _ _ _ => some true, fun _ _ => none, fun _ _ => some false⟩, rfl, rfl⟩
 
-theorem two_hoisted_conjuncts_change_meaning_old :
-    prepOld false false true (qAnd [qKind "r" ["A"], qKind "r" ["B"], rx]) = some ([["A"], ["B"]], some (.join .and [rx])) ∧
+theorem two_hoisted_conjuncts_change_meaning :
+    prep false false true (qAnd [qKind "r" ["A"], qKind "r" ["B"], rx]) = some ([["A"], ["B"]], some (.join .and [rx])) ∧
     ∃ v : Val, meaning v ["A", "B"] (some (.join .and [rx])) = some true ∧
       eval v (qAnd [qKind "r" ["A"], qKind "r" ["B"], rx]) = some false :=
   ⟨rfl, ⟨fun _ _ _ => some true, fun _ _ => none, fun _ k => some (k == "A")⟩, rfl, rfl⟩
 
-theorem hoist_all_of_changes_meaning_old :
-    prepOld false false true (qAnd [.kinds "r" ["A", "B"] true, rx]) = some ([["A", "B"]], some (.join .and [rx])) ∧
+theorem hoist_all_of_changes_meaning :
+    prep false false true (qAnd [.kinds "r" ["A", "B"] true, rx]) = some ([["A", "B"]], some (.join .and [rx])) ∧
     ∃ v : Val, meaning v ["A", "B"] (some (.join .and [rx])) = some true ∧
       eval v (qAnd [.kinds "r" ["A", "B"] true, rx]) = some false :=
   ⟨rfl, ⟨fun _ _ _ => some true, fun _ _ => none, fun _ k => some (k == "A")⟩, rfl, rfl⟩
@@ -295,18 +295,20 @@ theorem string_negation_guard_eval (v : Val) (l r : Operand) :
 /-- non-vacuity: a conjunctive, un-negated matcher among nested lists, parentheses and sibling negations is hoistable -/
 example : hoistOK (qAnd [qNot rx, .paren (qAnd [rx, qKind "r" ["A", "B"]]), qOr [rx, qNot (qKind "r" ["C"])]]) = true ∧
     valid (qAnd [qNot rx, .paren (qAnd [rx, qKind "r" ["A", "B"]]), qOr [rx, qNot (qKind "r" ["C"])]]) = true ∧
-    (prepOld false false true (qAnd [qNot rx, .paren (qAnd [rx, qKind "r" ["A", "B"]]), qOr [rx, qNot (qKind "r" ["C"])]])).isSome = true :=
+    (prep false false true (qAnd [qNot rx, .paren (qAnd [rx, qKind "r" ["A", "B"]]), qOr [rx, qNot (qKind "r" ["C"])]])).isSome = true :=
   ⟨rfl, rfl, rfl⟩
 example : hoistOK wNegKind = true ∧ hoistOK (qOr [qKind "r" ["A"], rx]) = false := ⟨rfl, rfl⟩
 
-/-! ### Prepare as it is (with hooks/C10-fix7): no hypothesis beyond well-formedness -/
+/-! ### PROPOSAL, not the code that exists: Prepare with hooks/C10-fix7 (`prepFix7`) needs no hypothesis beyond well-formedness.
+The patch was not taken (a relationship kind matcher left in the WHERE clause is rejected by some Neo4j versions), so these
+theorems describe the repair, and `prepare_preserves_eval` above (with `hoistOK`) describes /repo. -/
 
 /-- The kinds Prepare puts on the MATCH pattern together with the WHERE it leaves mean what the criteria meant, for
 every valid term and every valuation (string-negation null guard aside, see `string_negation_guard_eval`). -/
-theorem prepare_preserves_eval (v : Val) (e : Expr) (hv : valid e = true) :
-    meaning v (flattenKinds (prep false false false true true e).1) (prep false false false true true e).2 = eval v e := by
-  have g := prep_live v e false false true true hv
-  generalize prep false false false true true e = p at g
+theorem prepare_preserves_eval_fix7 (v : Val) (e : Expr) (hv : valid e = true) :
+    meaning v (flattenKinds (prepFix7 false false false true true e).1) (prepFix7 false false false true true e).2 = eval v e := by
+  have g := prepFix7_good v e false false true true hv
+  generalize prepFix7 false false false true true e = p at g
   obtain ⟨h, w⟩ := p
   simp only at g ⊢
   match h, g.len, g.ev, g.ne with
@@ -318,16 +320,16 @@ theorem prepare_preserves_eval (v : Val) (e : Expr) (hv : valid e = true) :
   | _ :: _ :: _, hlen, _, _ => simp at hlen
 
 /-- at most one matcher is hoisted -/
-theorem prepare_hoists_at_most_one (e : Expr) (hv : valid e = true) : (prep false false false true true e).1.length ≤ 1 :=
-  (prep_live ⟨fun _ _ _ => none, fun _ _ => none, fun _ _ => none⟩ e false false true true hv).len
+theorem prepare_hoists_at_most_one_fix7 (e : Expr) (hv : valid e = true) : (prepFix7 false false false true true e).1.length ≤ 1 :=
+  (prepFix7_good ⟨fun _ _ _ => none, fun _ _ => none, fun _ _ => none⟩ e false false true true hv).len
 
-/-- the shapes the old rewriter got wrong are now left in the WHERE clause (or hoisted once) -/
-example : prepare (qOr [qKind "r" ["A"], rx]) = ([], some (qOr [qKind "r" ["A"], rx])) := by rfl
-example : prepare (qXor [qKind "r" ["A"], rx]) = ([], some (qXor [qKind "r" ["A"], rx])) := by rfl
-example : prepare (qAnd [qKind "r" ["A"], qKind "r" ["B"], rx]) = (["A"], some (.join .and [qKind "r" ["B"], rx])) := by rfl
-example : prepare (qAnd [.kinds "r" ["A", "B"] true, rx]) = ([], some (qAnd [.kinds "r" ["A", "B"] true, rx])) := by rfl
-example : prepare wNegKind = ([], some wNegKind) := by rfl
-example : prepare (qAnd [qNot rx, .paren (qAnd [rx, qKind "r" ["A", "B"]])]) =
+/-- with the proposal, the shapes the rewriter gets wrong would be left in the WHERE clause (or hoisted once) -/
+example : prepareFix7 (qOr [qKind "r" ["A"], rx]) = ([], some (qOr [qKind "r" ["A"], rx])) := by rfl
+example : prepareFix7 (qXor [qKind "r" ["A"], rx]) = ([], some (qXor [qKind "r" ["A"], rx])) := by rfl
+example : prepareFix7 (qAnd [qKind "r" ["A"], qKind "r" ["B"], rx]) = (["A"], some (.join .and [qKind "r" ["B"], rx])) := by rfl
+example : prepareFix7 (qAnd [.kinds "r" ["A", "B"] true, rx]) = ([], some (qAnd [.kinds "r" ["A", "B"] true, rx])) := by rfl
+example : prepareFix7 wNegKind = ([], some wNegKind) := by rfl
+example : prepareFix7 (qAnd [qNot rx, .paren (qAnd [rx, qKind "r" ["A", "B"]])]) =
     (["A", "B"], some (.join .and [qNot rx, .paren rx])) := by rfl
 
 /-! ### clause level: the whole query the builders assemble
